@@ -1,6 +1,7 @@
 import CoxeterVerif.Driver.Proto
 import CoxeterVerif.Model.Steiner
 import CoxeterVerif.Spec.Steiner
+import CoxeterVerif.Model.Polygon
 
 namespace OpsC11
 open Steiner
@@ -20,6 +21,24 @@ def rdCore {α} [Codec α] (c : Ctx) : Rd (Core α) := do
   let v ← Rd.sc c
   let s ← Rd.sc c
   pure ⟨vs, ns, fi, v, s⟩
+
+/-- one mutator of a spheropolyhedron history: kind 0 radius, 1 _rescale, 2 volume, 3 surface_area,
+    4 mean_curvature; then the value -/
+def rdOp3 {α} [Codec α] (c : Ctx) : Rd (SpheroPolyhedron.Op α) := do
+  let k ← Rd.nat c
+  let v : α ← Rd.sc c
+  pure <| match k with
+    | 0 => .setRadius v | 1 => .rescale v | 2 => .setVolume v | 3 => .setSurfaceArea v
+    | _ => .setMeanCurvature v
+
+/-- one mutator of a spheropolygon history: kind 0 radius, 1 _rescale, 2 area, 3 perimeter -/
+def rdOp2 {α} [Codec α] (c : Ctx) : Rd (SpheroPolygon.Op α) := do
+  let k ← Rd.nat c
+  let v : α ← Rd.sc c
+  pure <| match k with
+    | 0 => .setRadius v | 1 => .rescale v | 2 => .setArea v | _ => .setPerimeter v
+
+def outV3s {α} [Codec α] (vs : List (V3 α)) : String := Out.scs (vs.flatMap fun v => [v.x, v.y, v.z])
 
 def reply (r : Except String String) : String :=
   match r with
@@ -102,6 +121,53 @@ def run (α : Type) [Scalar α] [Codec α] (op : String) (c : Ctx) : Option (Rd 
       let n1 : V3 α ← Rd.v3 c
       let n2 : V3 α ← Rd.v3 c
       pure (Out.sc (SteinerSpec.dihedral n1 n2))
+  | "c11.specdihedral2" => some do
+      -- in: n1 n2 (any non-zero outward normals) ; out: atan2(|n1 x n2|, -n1.n2)
+      let n1 : V3 α ← Rd.v3 c
+      let n2 : V3 α ← Rd.v3 c
+      pure (Out.sc (SteinerSpec.dihedralAtan2 n1 n2))
+  | "c11.poly2" => some do
+      -- in: planar vertices [(x, y)], r ; out: allCcw(0/1) turnSum perimeter2 shoelace2
+      --     parallelArea2(|shoelace2|) parallelPerimeter2
+      -- (Q: allCcw and shoelace2 are exact; F: the rest)
+      let vs : List (α × α) ← Rd.list c (rdPair c)
+      let r : α ← Rd.sc c
+      let a := SteinerSpec.shoelace2 vs
+      let ok : Int := if SteinerSpec.allCcw vs then 1 else 0
+      pure s!"{Out.int ok} {Out.sc (SteinerSpec.turnSum vs)} {Out.sc (SteinerSpec.perimeter2 vs)} {Out.sc a} {Out.sc (SteinerSpec.parallelArea2 (Scalar.abs a) vs r)} {Out.sc (SteinerSpec.parallelPerimeter2 vs r)}"
+  | "c11.caps" => some do
+      -- in: nV, faces [[(x, y)]] (each face in coordinates of its own plane, counter-clockwise), r
+      -- out: eulerOk(0/1) allFacesCcw(0/1) capAngleSum capVolume capArea
+      -- (Q on exact axis-projected coordinates: the two flags are exact; F on in-plane coordinates: the sums)
+      let nV ← Rd.nat c
+      let faces : List (List (α × α)) ← Rd.list c (Rd.list c (rdPair c))
+      let r : α ← Rd.sc c
+      let e : Int := if SteinerSpec.eulerOk nV (faces.map List.length) then 1 else 0
+      let a : Int := if faces.all (fun f => decide (3 ≤ f.length) && SteinerSpec.allCcw f) then 1 else 0
+      pure s!"{Out.int e} {Out.int a} {Out.sc (SteinerSpec.capAngleSum nV faces)} {Out.sc (SteinerSpec.capVolume nV faces r)} {Out.sc (SteinerSpec.capArea nV faces r)}"
+  | "c11.hist3" => some do
+      -- in: core r ops[(kind, value)] ; out: radius volume surface_area mean_curvature coreV coreS vertices…
+      let core : Core α ← rdCore c
+      let r : α ← Rd.sc c
+      let ops ← Rd.list c (rdOp3 c)
+      pure <| reply do
+        let r0 ← setRadius r
+        let s ← (SpheroPolyhedron.State.mk core r0).run ops
+        let v ← SpheroPolyhedron.volume s.core s.radius
+        let a ← SpheroPolyhedron.surfaceArea s.core s.radius
+        let m ← SpheroPolyhedron.meanCurvature s.core s.radius
+        pure s!"{Out.sc s.radius} {Out.sc v} {Out.sc a} {Out.sc m} {Out.sc s.core.volume} {Out.sc s.core.area} {outV3s s.core.vertices}"
+  | "c11.hist2" => some do
+      -- in: vertices normal r ops[(kind, value)] ; out: radius signed_area area perimeter vertices…
+      let vs : List (V3 α) ← Rd.list c (Rd.v3 c)
+      let n : V3 α ← Rd.v3 c
+      let r : α ← Rd.sc c
+      let ops ← Rd.list c (rdOp2 c)
+      let pa : List (V3 α) → α := fun l => Poly2.signedArea l n
+      pure <| reply do
+        let r0 ← setRadius r
+        let s ← (SpheroPolygon.State.mk vs r0).run pa ops
+        pure s!"{Out.sc s.radius} {Out.sc (s.signedArea pa)} {Out.sc (s.area pa)} {Out.sc s.perimeter} {outV3s s.vertices}"
   | _ => none
 
 end OpsC11
